@@ -92,7 +92,15 @@ def empty1(ctx: Ctx, chk) -> None:
     c = calls[0]
     chk.instance(rule)
     a = c.args[0] if c.args else None
-    ok = isinstance(a, ast.BoolOp) and isinstance(a.op, ast.Or) and len(a.values) == 2 and isinstance(a.values[1], ast.Constant) and a.values[1].value in ("{}",)
+    def _const(e):
+        if isinstance(e, ast.Constant):
+            return e.value
+        try:
+            return ctx.folder.plain(ctx.folder.fold(load_raw.module, e))  # a named module-level constant
+        except Exception:  # noqa: BLE001
+            return None
+
+    ok = isinstance(a, ast.BoolOp) and isinstance(a.op, ast.Or) and len(a.values) == 2 and _const(a.values[1]) in ("{}",)
     if ok:
         chk.ok(rule, fkey(load, c), "json.loads(read or '{}')", ctx.loc(load, c))
     else:
